@@ -224,6 +224,11 @@ def curTtl (e : Entry) (now : Int) : Nat := max 1 ((e.deadlineNano - now) / SEC)
 def repack (e : Entry) (now : Int) : Entry :=
   { e with packed := true, packedTTL := curTtl e now, packedAt := now }
 
+/-- what a hit looked like, for examples and reports: (stale, TTL shown, answer id, needRefresh) -/
+def LRes.view : LRes → Option (Bool × Nat × Nat × Bool)
+  | .miss => none
+  | .hit s => some (s.stale, s.ttl, s.ans, s.refresh)
+
 /-- `GetPackedResponseWithApproximateTTL`: the TTL inside the bytes returned (or `none` for `nil`)
 and the entry after a possible re-pack.  The re-pack fails iff the authority record cannot be packed
 (`ns = 2`); the timestamp is then put back and the bytes stay as they were. -/
